@@ -82,7 +82,7 @@ Proof.
          applied_ids s2 = applied_ids s ++ [c] /\ drops s2 = drops s /\ dropped s2 = dropped s))).
   { intros s1 H1 H2 H3 H4 H5 H6 H7 H8. exists s1. split; [reflexivity|]. right. repeat split; assumption. }
   assert (C : forall (s1 : st) r l, r <> ChannelClosed ->
-     exists s2, Some (crash s1 r l) = Some s2 /\
+     exists s2, Some (crash m s1 r l) = Some s2 /\
        ((exists r, exited s2 = Some r /\ r <> ChannelClosed) \/
         (exited s2 = None /\ busy s2 = None /\ queue s2 = queue s /\ actor s2 <> None /\ senders s2 = senders s /\
          applied_ids s2 = applied_ids s ++ [c] /\ drops s2 = drops s /\ dropped s2 = dropped s))).
